@@ -90,6 +90,11 @@ func (e *Exec) call(fr *Frame, st *State, x *ssa.Call) (Value, bool) {
 		e.atNoReturnCall(fr, st, x, callee)
 		return nil, false
 	}
+	if e.Opt.Contracts != nil && e.Opt.Contracts.PureFuncs[FuncName(callee)] && fr.fn != callee {
+		if v, ok := e.pureFuncCall(fr, st, x, callee); ok {
+			return v, true
+		}
+	}
 	if ct := e.contractOf(callee); ct != nil && fr.fn != callee {
 		return e.callByContract(fr, st, x, callee, ct)
 	}
@@ -706,6 +711,13 @@ found:
 		}
 		for k, a := range args {
 			en.vars[fmt.Sprintf("$arg%d", k)] = ev{e.val(fr, a), a.Type()}
+			// provenance: the name of the function whose call produced this argument ("" when it is not the
+			// direct result of a static call) - for clauses of the form "what is written was encoded by F"
+			from := ""
+			if ca, ok := a.(*ssa.Call); ok {
+				from = calleeName(&ca.Call)
+			}
+			en.vars[fmt.Sprintf("$arg%d_from", k)] = ev{e.strConst(from), types.Typ[types.String]}
 		}
 		lbl := oc.Label
 		if lbl == "" {
@@ -731,4 +743,43 @@ func (e *Exec) pureMethod(name, sort string, recv *Term) *Term {
 		}
 	}
 	return App(sort, f, recv)
+}
+
+// pureFuncName: the uninterpreted function standing for an assumed-pure module function.
+func pureFuncName(full string) string { return "pf_" + sanitize(full) }
+
+// pureFuncApp applies the uninterpreted function of an assumed-pure function to argument terms.
+func (e *Exec) pureFuncApp(full string, rs string, args []*Term) *Term {
+	f := pureFuncName(full)
+	if !e.declared[f] {
+		e.declared[f] = true
+		var ss []string
+		for _, a := range args {
+			ss = append(ss, a.Sort)
+		}
+		e.emit("(declare-fun %s (%s) %s)", f, strings.Join(ss, " "), rs)
+	}
+	return App(rs, f, args...)
+}
+
+// pureFuncCall: a static call of an assumed-pure function is its uninterpreted function applied to the arguments.
+func (e *Exec) pureFuncCall(fr *Frame, st *State, x *ssa.Call, callee *ssa.Function) (Value, bool) {
+	res := callee.Signature.Results()
+	if res.Len() != 1 {
+		return nil, false
+	}
+	rs := sortOf(res.At(0).Type())
+	if rs != SInt && rs != SBool && rs != SObj {
+		return nil, false
+	}
+	var args []*Term
+	for _, a := range x.Call.Args {
+		switch sortOf(a.Type()) {
+		case SInt, SBool, SObj:
+			args = append(args, e.term(fr, st, a))
+		default:
+			return nil, false
+		}
+	}
+	return e.def(rs, e.pureFuncApp(FuncName(callee), rs, args)), true
 }
